@@ -1,7 +1,11 @@
 package props
 
 import (
+	"bytes"
+	"compress/flate"
+	"encoding/base64"
 	"fmt"
+	"io"
 	"math/rand"
 	"net/url"
 	"sort"
@@ -466,4 +470,12 @@ func hexEscapeNonASCII(s string) string {
 // normNL is HTML input-stream newline normalisation (CRLF and CR -> LF).
 func normNL(s string) string {
 	return strings.ReplaceAll(strings.ReplaceAll(s, "\r\n", "\n"), "\r", "\n")
+}
+
+func b64Std(s string) ([]byte, error) { return base64.StdEncoding.DecodeString(s) }
+
+func inflateAll(b []byte) ([]byte, error) {
+	r := flate.NewReader(bytes.NewReader(b))
+	defer r.Close()
+	return io.ReadAll(r)
 }
